@@ -738,6 +738,24 @@ def decode_sites(body):
     return out
 
 
+def handed_on_unchanged(body, place, sites):
+    """the value at `place` (the message component of what is returned / pushed) is the value of one of the decode sites
+    itself: walking back through moves, `?`, Ok(..)/tuples and views reaches that site, and no local on the way is written in
+    part or mutably borrowed (a compatibility shim moving fields around, mem::take / mem::replace on a field, clearing a
+    deprecated field, sorting) -- the one merge of a `default() + merge` site excepted.  Returns a list of complaints."""
+    trail = []
+    root, proj = origin(body, place, trail=trail)
+    held = set(trail)
+    for l in list(held): held |= T.copies_of(body, l)
+    muts = mutations_of(body, {l for l in held if not body.locals[l].startswith('&mut')})
+    site = [d for d in sites if root in (d.value, d.call.dst['l'])]
+    allowed = 1 if any(d.call.item == 'merge' and d.value == root for d in site) else 0
+    why = sorted({w for _, w in muts}) if len(muts) > allowed else []
+    defs = [x for x in body.defs_of(root) if not (x[0] == 'stmt' and x[2]['dst']['p'])]
+    if not site and len(defs) == 1: why.append('it is rebuilt or the result of another step, not the value of the decoder')        # several definitions: lost at a join, left to the slice rules
+    return why
+
+
 def over_all_layers(ctx, body, lo):
     """the loop iterates over the result of `OciArtifact::get_layers` (all (descriptor, blob) pairs in manifest order)"""
     return any(x.item == 'get_layers' and 'OciArtifact' in x.name for x in ctx.S.slice_operand(body, lo[0].args[0]).call_objs)
@@ -841,6 +859,11 @@ def kinds_rules(ctx):
             only_fails_by(ctx, R + '/%s/get/only-expected-errors' % kind, g, gl + listing + [d.call for d in dec], guard_sbs, 'the layer is found, has media type %s and decodes as %s' % (mt, msg), cut=not_found)
             okf = any(any(l in ctx.S.slice_operand(g, c.args[0]).call_objs for l in used) and bool(pay) and all(c in ctx.S.slice_operand(g, p).call_objs for p in pay) for c in fd)
             ctx.check(okf, R + '/%s/get/annotations' % kind, 'T-SIBLING', g.name, 'annotations are not read from the layer\'s descriptor as %s' % ann, g.site())
+            # read back EQUAL to what was stored: the message returned is the decoder's value as it is (the get-side twin of add/message-unchanged)
+            why = []
+            for pp in pay:
+                if pp['k'] in ('copy', 'move'): why += handed_on_unchanged(g, {'l': pp['pl']['l'], 'p': list(pp['pl']['p']) + [{'f': '0', 'of': 'tuple'}]}, dec)
+            ctx.check(bool(pay) and bool(dec) and not why, R + '/%s/get/message-unchanged' % kind, 'T-CARRY', g.name, 'the decoded %s is modified before it is returned: %s' % (msg, sorted(set(why))), g.site())
     # list readers: every layer of the kind's media type, decoded, with its own descriptor, in order
     for fn, mt, msg in (('get_instances', 'v1_instance', 'v1::Instance'), ('get_solutions', 'v1_solution', 'v1::State')):
         g = ctx.method(R + '/%s/anchor' % fn, ART, fn)
@@ -876,6 +899,7 @@ def kinds_rules(ctx):
             # fail closed: the per-layer conditions cannot be placed
             ctx.bad(R + '/%s/every-match-kept' % fn, 'T-LOOPMUST', g.name, 'no loop over OciArtifact::get_layers() in which a layer is decoded as %s' % msg, g.site())
             ctx.bad(R + '/%s/same-layer' % fn, 'T-CARRY', g.name, 'no loop over OciArtifact::get_layers() in which a layer is decoded as %s' % msg, g.site())
+            ctx.bad(R + '/%s/message-unchanged' % fn, 'T-CARRY', g.name, 'no loop over OciArtifact::get_layers() in which a layer is decoded as %s' % msg, g.site())
         else:
             lo, d = chain[-1]; item = lo[0].dst['l']
             pushes = [c for c in g.calls if c.item in PUSHES and c.bb in lo[4] and d.call in ctx.S.slice_operand(g, c.args[1]).call_objs]
@@ -908,6 +932,11 @@ def kinds_rules(ctx):
             for lo_i, sink in chain[:-1]:
                 ok_same = ok_same and carries_item(g, sink.args[1], lo_i[0].dst['l'])
             ctx.check(ok_same, R + '/%s/same-layer' % fn, 'T-CARRY', g.name, 'the descriptor and the decoded blob of an entry are not taken from the same layer of the iteration', g.site())
+            why = []
+            for c in pushes:
+                a = c.args[1]
+                if a['k'] in ('copy', 'move'): why += handed_on_unchanged(g, {'l': a['pl']['l'], 'p': list(a['pl']['p']) + [{'f': '1', 'of': 'tuple'}]}, dec)
+            ctx.check(bool(pushes) and not why, R + '/%s/message-unchanged' % fn, 'T-CARRY', g.name, 'the decoded %s is modified before it is stored in the result: %s' % (msg, sorted(set(why))), g.site())
 
 
 # ------------------------------------------------------------------------------- media types, manifest, digest
@@ -1340,4 +1369,4 @@ def check(ctx):
     finally:
         ctx.F, ctx.S = F0, S0
     # floors = rule instances decided on the pinned tree
-    ctx.floor('C20.kinds', 58); ctx.floor('C20.types', 19); ctx.floor('C20.digest', 4); ctx.floor('C20.annotations', 96)
+    ctx.floor('C20.kinds', 64); ctx.floor('C20.types', 19); ctx.floor('C20.digest', 4); ctx.floor('C20.annotations', 96)
